@@ -258,6 +258,21 @@ def bounded_pipeline(seed, tier):
                     all(s.get_value('04') == 'A' for s in ta1)
                 if verdict and not all_accept:
                     problems.append('C05: verdict True but the acknowledgement rejects something (AK5 %r)' % (ak5,))
+                # a set / group marked accepted carries no note code: a code under AK5/IK5 (AK502..) or AK9 (AK905..) is an error
+                # reported inside it (the trailer segment's own errors were once attached after the code had been fixed)
+                noted = []
+                for s in asegs:
+                    if s.get_seg_id() == 'AK2':
+                        noted = []
+                    if s.get_seg_id() in ('AK3', 'IK3'):
+                        noted.append(s.get_value('01'))
+                    if s.get_seg_id() in ('AK5', 'IK5') and s.get_value('01') == 'A' and len(s) > 1:
+                        # the input class of the listed finding is named in the text, so that the same symptom on any other input is new
+                        late = [x for x in noted if x in ('GE', 'IEA', 'GS', 'ISA')]
+                        why = (' [a later envelope segment is noted under the already closed set: %s]' % late[0]) if late and late == noted else ''
+                        problems.append('C05: a set acknowledged A carries note codes: %s%s' % (s.format('~', '*', ':'), why))
+                    if s.get_seg_id() == 'AK9' and s.get_value('01') == 'A' and len(s) > 4:
+                        problems.append('C05: a group acknowledged A carries note codes: %s' % s.format('~', '*', ':'))
                 # the converse, where it is owed: the interchange level is untouched and clean (so every error lies inside a group,
                 # where AK9/AK5 must show it) - interchange-level errors are only acknowledged by a TA1 when ISA14 asks for one
                 isa_same = [x for x in s2 if x[:3] in ('ISA', 'IEA')] == [x for x in segs if x[:3] in ('ISA', 'IEA')] and \
